@@ -42,7 +42,7 @@ func optsUnmodified(c *Ctx, lr *limitRoles, rule string) {
 		for _, b := range ctor.Blocks {
 			for _, in := range b.Instrs {
 				st, ok := fieldStore(in, "opts")
-				if !ok || namedOrigin(st.Addr.(*ssa.FieldAddr).X.Type()) != lr.d.Named {
+				if !ok || rootStructOf(st.Addr.(*ssa.FieldAddr)) != lr.d.Named {
 					continue
 				}
 				found = true
@@ -181,7 +181,7 @@ func runC12(c *Ctx) {
 			}
 			for _, b := range fn.Blocks {
 				for _, in := range b.Instrs {
-					if st, ok := fieldStore(in, "output"); ok && namedOrigin(st.Addr.(*ssa.FieldAddr).X.Type()) == lr.d.Named {
+					if st, ok := fieldStore(in, "output"); ok && rootStructOf(st.Addr.(*ssa.FieldAddr)) == lr.d.Named {
 						n++
 						isCtor := false
 						for _, ct := range lr.d.Ctors {
@@ -286,7 +286,7 @@ func runC12(c *Ctx) {
 	}
 	r.Check(len(bad2) == 0, "Q2", p.FnKey(lr.entry), p.Pos(lr.entry.Pos()), "closed => straight to the entry's return", strings.Join(dedup(bad2), "; "))
 	// close(output) deferred unconditionally in entry
-	order, okd := DeferRunOrder(lr.entry)
+	order, okd := p.CleanupOrder(lr.entry)
 	closes := false
 	for _, df := range order {
 		if k, a := p.deferKind(df); k == "close" && a == "field:output" {
@@ -679,7 +679,17 @@ func limitBatchLoop(c *Ctx, lr *limitRoles, rule string) {
 			// continue-condition: a test before the body `iter < Quantity`, or a test after the body
 			// `iter+1 < Quantity` (the rotated form the compiler front end gives `for range n`),
 			// iter counted from 0 by 1
-			_, path, okp := cmp.R.StripConv().FieldPath()
+			bound := p.upParam(cmp.R.StripConv(), 0) // (the bound may be handed to a helper)
+			_, path, okp := bound.StripConv().FieldPath()
+			if !losslessConv(bound) {
+				okp = false // int(Quantity) is negative for Quantity > MaxInt64: the batch would be empty
+			}
+			if base, _ := condOf(iff.Cond); base != nil {
+				// (NormCmp strips conversions: look at the operands as written)
+				if bo, isB := base.(*ssa.BinOp); isB && (!losslessConv(p.Sym(bo.X)) || !losslessConv(p.Sym(bo.Y))) {
+					okp = false
+				}
+			}
 			wantLC := int64(1)
 			if b.Dominates(lr.src.In.Block()) {
 				wantLC = 0
@@ -722,7 +732,7 @@ func limitBatchLoop(c *Ctx, lr *limitRoles, rule string) {
 				return false
 			}
 			for _, side := range []*Sym{cm.L, cm.R} {
-				if _, path, okp := deepStrip(side).FieldPath(); okp && strings.Join(path, ".") == "opts.Limit.Quantity" {
+				if _, path, okp := deepStrip(p.upParam(deepStrip(side), 0)).FieldPath(); okp && strings.Join(path, ".") == "opts.Limit.Quantity" {
 					return true
 				}
 			}
@@ -734,4 +744,46 @@ func limitBatchLoop(c *Ctx, lr *limitRoles, rule string) {
 		// loop entry: the pre-test 0 < Quantity or direct entry
 	}
 	c.R.Check(len(problems) == 0, rule, p.FnKey(fn)+"#loop", p.Pos(fn.Pos()), "counted loop 0..Limit.Quantity around the single receive", strings.Join(dedup(problems), "; "))
+}
+
+// losslessConv: every integer conversion at the top of s keeps the value (same signedness, no
+// narrowing); conversions whose operand is unknown are taken to lose.
+func losslessConv(s *Sym) bool {
+	for s != nil && s.Op == "conv" {
+		if len(s.Args) != 1 || s.V == nil || s.Args[0] == nil || s.Args[0].V == nil {
+			return false
+		}
+		to, ok1 := s.V.Type().Underlying().(*types.Basic)
+		from, ok2 := s.Args[0].V.Type().Underlying().(*types.Basic)
+		if !ok1 || !ok2 || to.Info()&types.IsInteger == 0 || from.Info()&types.IsInteger == 0 {
+			return false
+		}
+		if (to.Info()&types.IsUnsigned != 0) != (from.Info()&types.IsUnsigned != 0) {
+			return false
+		}
+		size := func(b *types.Basic) int {
+			switch b.Kind() {
+			case types.Int8, types.Uint8:
+				return 8
+			case types.Int16, types.Uint16:
+				return 16
+			case types.Int32, types.Uint32:
+				return 32
+			case types.Int, types.Uint, types.Uintptr:
+				return 32 // the smallest it can be
+			case types.Int64, types.Uint64:
+				return 64
+			}
+			return 0
+		}
+		sf, st := size(from), size(to)
+		if from.Kind() == types.Int || from.Kind() == types.Uint {
+			sf = 64 // the largest it can be
+		}
+		if st < sf {
+			return false
+		}
+		s = s.Args[0]
+	}
+	return true
 }
